@@ -1,7 +1,9 @@
 (** Top-level dispatch of the extracted model driver: op = 100 * property + local op. *)
 From Coq Require Import ZArith List Bool.
 From GV Require Import Base.Val.
-From GV Require Entry.E07.
+From GV Require Entry.E01 Entry.E02 Entry.E03 Entry.E04 Entry.E05 Entry.E06 Entry.E07 Entry.E08
+  Entry.E09 Entry.E10 Entry.E11 Entry.E12 Entry.E13 Entry.E14 Entry.E15 Entry.E16 Entry.E17
+  Entry.E18 Entry.E19 Entry.E20.
 Import ListNotations.
 Open Scope Z_scope.
 
@@ -13,6 +15,10 @@ Definition gv_dispatch (op : Z) (a : val) : val :=
   let p := op / 100 in
   let o := op mod 100 in
   match p with
-  | 7 => E07.dispatch o a
+  | 1 => E01.dispatch o a | 2 => E02.dispatch o a | 3 => E03.dispatch o a | 4 => E04.dispatch o a
+  | 5 => E05.dispatch o a | 6 => E06.dispatch o a | 7 => E07.dispatch o a | 8 => E08.dispatch o a
+  | 9 => E09.dispatch o a | 10 => E10.dispatch o a | 11 => E11.dispatch o a | 12 => E12.dispatch o a
+  | 13 => E13.dispatch o a | 14 => E14.dispatch o a | 15 => E15.dispatch o a | 16 => E16.dispatch o a
+  | 17 => E17.dispatch o a | 18 => E18.dispatch o a | 19 => E19.dispatch o a | 20 => E20.dispatch o a
   | _ => vbad
   end.
